@@ -202,11 +202,6 @@ def prodB (Z0 : K) : List (Stage K) → M2 K
   | t :: ts => M2.mul (prodB Z0 ts) (TPN_Bparams t Z0)
 
 
-/-- product of the inverse chain matrices, last stage leftmost (signal order for B) -/
-def prodB (Z0 : K) : List (Stage K) → M2 K
-  | [] => ⟨1, 0, 0, 1⟩
-  | t :: ts => M2.mul (prodB Z0 ts) (TPN_Bparams t Z0)
-
 theorem prodB_append (Z0 : K) (l1 l2 : List (Stage K)) :
     prodB Z0 (l1 ++ l2) = M2.mul (prodB Z0 l2) (prodB Z0 l1) := by
   induction l1 with
